@@ -1566,6 +1566,19 @@ func (c27) Run(in string, scratch string) Result {
 			} else {
 				or = "OK"
 			}
+		case strings.HasPrefix(kind, "w-") || kind == "g-missing":
+			// a faulty writer (everything re-chained and signed with the real key): wrong grounding content / position
+			// must be rejected whenever the verifier that covers it is present
+			must := true
+			if kind == "w-sigm" {
+				must = useM
+			} else if kind == "w-sige" {
+				must = useE
+			}
+			or = "OK"
+			if must == accepted {
+				or = fmt.Sprintf("FAIL:log with a wrong grounding (%s): accepted=%v with verifiers %s", kind, accepted, flags)
+			}
 		case useE:
 			or = "OK"
 			if accepted {
